@@ -27,7 +27,7 @@ func (c09) Assumptions() []string {
 		"every single site of each scenario is injected; pairs are sampled (seeded)",
 	}
 }
-func (c09) NumCases(tier string) int      { return tierN(tier, 150, 12000) }
+func (c09) NumCases(tier string) int      { return tierN(tier, 400, 12000) }
 func (c09) MinNontrivial(tier string) int { return tierN(tier, 20, 40) }
 func (c09) ExhaustiveNote(tier string) (bool, string) {
 	return false, "per scenario every single fault site is injected (complete enumeration of single faults); scenarios and fault pairs are sampled"
@@ -170,6 +170,56 @@ func (p c09) mixin(c *core.Ctx) {
 	c.Nontrivial(fmt.Sprintf("mixin|%d|%s", variant, g.Sc.GraphSig()))
 }
 
+// arrays: an array-typed point ([2]I, [3]*T) can never be satisfied - the container fills slices, pointers
+// and interfaces. Required: Run returns an error; optional: the array stays zero. Never a panic, whether
+// matching components are registered or not.
+func (p c09) arrays(c *core.Ctx) {
+	g := world.NewG(c.Rng)
+	for x := 0; x < c.Rng.Intn(4); x++ { // 0..3 components that would fit the element type
+		g.AddNode([]int{0, 1, 3}[c.Rng.Intn(3)], g.FreshName(x))
+	}
+	g.AddNode(world.TypesRunner[c.Rng.Intn(len(world.TypesRunner))], g.FreshName(9))
+	g.ShuffleOrders()
+	optional := c.Rng.Intn(2) == 0
+	args := ""
+	if optional {
+		args = ",required=false"
+	}
+	var ft reflect.Type
+	switch c.Rng.Intn(3) {
+	case 0:
+		ft = reflect.ArrayOf(2, world.TypeIA)
+	case 1:
+		ft = reflect.ArrayOf(3, reflect.TypeOf(world.Palette[0].New()))
+	default:
+		ft = reflect.ArrayOf(1, world.TypeAny)
+	}
+	tag := world.WireTag("wire", args)
+	if c.Rng.Intn(4) == 0 {
+		tag = world.WireTag("func", "A"+args)
+	}
+	h := world.NewHolder(world.BuildStruct([]world.FieldSpec{{Name: "Arr", Type: ft, Tag: tag}, {Name: "Ok", Type: world.TypeAny, Tag: world.WireTag("wire", ",required=false")}}))
+	r := world.Start(g.Sc, world.Options{Extra: []any{h}})
+	c.Count("starts", 1)
+	c.Count("array_point_starts", 1)
+	detail := failDetail(g.Sc, r, map[string]any{"field": ft.String() + " `" + tag + "`"})
+	if abnormal(r.Outcome()) {
+		c.Fail("", fmt.Sprintf("array-typed point %s `%s`: %s", ft, tag, core.Short(r.OutcomeDetail(), 300)), detail)
+		return
+	}
+	runs := countEvents(r, "run")
+	if optional {
+		if r.Outcome() != "ok" || !reflect.ValueOf(h).Elem().Field(0).IsZero() {
+			c.Fail("", fmt.Sprintf("optional array-typed point %s `%s`: outcome %s, field zero=%v", ft, tag, r.Outcome(), reflect.ValueOf(h).Elem().Field(0).IsZero()), detail)
+			return
+		}
+	} else if r.Outcome() != "error" || runs != 0 {
+		c.Fail("", fmt.Sprintf("required array-typed point %s `%s` cannot be satisfied, but App.Run returned %s and %d runner(s) ran", ft, tag, r.Outcome(), runs), detail)
+		return
+	}
+	c.Nontrivial(fmt.Sprintf("arrays|%s|%s|%d", ft, tag, len(g.Sc.Nodes)))
+}
+
 func (p c09) Run(c *core.Ctx) {
 	if c.Index%5 == 4 {
 		p.misfit(c)
@@ -177,6 +227,10 @@ func (p c09) Run(c *core.Ctx) {
 	}
 	if c.Index%5 == 2 && c.Index%2 == 0 {
 		p.mixin(c)
+		return
+	}
+	if c.Index%5 == 2 && c.Index%4 == 1 {
+		p.arrays(c)
 		return
 	}
 	sc := RandomGraph(c.Rng, GraphOpts{MinN: 2, MaxN: 9, Types: world.TypesAll, PCycle: 0.6, Chords: 2,
